@@ -14,6 +14,22 @@ import Sqfs.Proofs.FsTreeScanLinks
 namespace Sqfs.C11
 open Sqfs.FsTree
 
+/-! ### fixtures for the instantiating examples: files `a`, `b`, `c` (= second name of `a`), `e`, a directory `d`,
+an option set that keeps owner and mode, bare names -/
+
+private def st (mode ino : Nat) : Stat := { mode := mode, uid := 0, gid := 0, mtime := 0, dev := 1, ino := ino, rdev := 0 }
+private def fa : HNode := .mk [0x61] (st 0o100644 10) [] []
+private def fb : HNode := .mk [0x62] (st 0o100644 11) [] []
+private def fc : HNode := .mk [0x63] (st 0o100644 10) [] []           -- second name of `a`
+private def fe : HNode := .mk [0x65] (st 0o100644 13) [] []
+private def dd (c : List HNode) : HNode := .mk [0x64] (st 0o040755 12) [] c
+private def wcfg : Cfg :=
+  { flags := Consts.dirScanKeepUid ||| Consts.dirScanKeepGid ||| Consts.dirScanKeepMode, defUid := 0,
+    defGid := 0, defMode := 0, defMtime := 0, pfx := [], filePrefix := none, pattern := none }
+private def wd : Defaults := { uid := 0, gid := 0, mtime := 0, mode := 0o755 }
+private def fe' : HNode := .mk [0x65] (st 0o100644 10) [] []
+private def nm (n : Name) : HNode := .mk n default [] []
+
 /-- `insert_sorted` (fstree.c): inserting nodes with pairwise different names into **any** child list gives the same
 list whatever the order of insertion — for all lists, via `List.Perm`. -/
 theorem insertSorted_perm {l₁ l₂ : List TNode} (hp : l₁.Perm l₂) (hnd : (l₁.map TNode.name).Nodup)
@@ -21,11 +37,19 @@ theorem insertSorted_perm {l₁ l₂ : List TNode} (hp : l₁.Perm l₂) (hnd : 
     l₁.foldl (fun acc n => insertSorted n acc) init = l₂.foldl (fun acc n => insertSorted n acc) init :=
   foldl_insertBy_perm TNode.name hp hnd init
 
+/-- instance: `c, a, b` and `a, b, c` inserted into a non-empty child list give the same list -/
+example := insertSorted_perm (l₁ := [.mk [0x63] default [], .mk [0x61] default [], .mk [0x62] default []])
+  (l₂ := [.mk [0x61] default [], .mk [0x62] default [], .mk [0x63] default []])
+  ((List.Perm.swap _ _ _).trans (List.Perm.cons _ (List.Perm.swap _ _ _))) (by decide) [.mk [0x60] default []]
+
 /-- `insert_sorted` keeps the children strictly sorted by `strcmp` and neither loses nor duplicates a node. -/
 theorem insertSorted_sorted (n : TNode) (cs : List TNode) (hs : SortedNames (cs.map TNode.name))
     (hnew : ∀ c ∈ cs, c.name ≠ n.name) :
     SortedNames ((insertSorted n cs).map TNode.name) ∧ (insertSorted n cs).Perm (n :: cs) :=
   ⟨insertBy_sorted TNode.name n cs hs hnew, insertBy_perm TNode.name n cs⟩
+
+/-- instance: `b` into the sorted list `a, c` -/
+example := insertSorted_sorted (.mk [0x62] default []) [.mk [0x61] default [], .mk [0x63] default []] (by decide) (by decide)
 
 /-! ### the native iterator (dir_unix.c): `compare_names`, `read_names` -/
 
@@ -38,6 +62,7 @@ theorem compare_names_total_order (a b c : HNode) :
   refine ⟨strcmpC_swap _ _, strcmpC_eq_zero_iff _ _, ?_⟩
   intro h1 h2
   exact (strcmpC_neg_iff _ _).mpr (nameLt_trans ((strcmpC_neg_iff _ _).mp h1) ((strcmpC_neg_iff _ _).mp h2))
+example := compare_names_total_order (nm [0x61]) (nm [0x61, 0x80]) (nm [0x62])
 
 /-- `read_names` leaves `it->names` a permutation of what `readdir` returned, strictly ascending under
 `compare_names` — for a stream of any length (no bound, no batches), names of any length. -/
@@ -49,12 +74,17 @@ theorem read_names_sorted (stream : List HNode) (hnd : (stream.map HNode.name).N
   unfold SortedNames at h
   rw [List.pairwise_map] at h
   exact h.imp (fun hab => (strcmpC_neg_iff _ _).mpr hab)
+example := read_names_sorted [nm [0x63], nm [0x2e, 0x2e], nm [0x61, 0xff], nm [0x2e], nm [0x61]] (by decide)
 
 /-- The order `read_names` serves does not depend on the order in which `readdir` returned the entries. -/
 theorem read_names_perm {s₁ s₂ : List HNode} (hp : s₁.Perm s₂) (hnd : (s₁.map HNode.name).Nodup) :
     readNames true s₁ = readNames true s₂ := by
   rw [readNames_true, readNames_true]
   exact sortByName_perm hp hnd
+
+/-- instance: two `readdir` orders of one directory -/
+example := read_names_perm (s₁ := [nm [0x63], nm [0x61], nm [0x62]]) (s₂ := [nm [0x61], nm [0x63], nm [0x62]])
+  (List.Perm.swap _ _ _) (by decide)
 
 /-- The model's choice of sorting algorithm is immaterial: **every** `qsort` that conforms to ISO C (returns a
 permutation that is non-descending under the comparison function) leaves exactly the list the model computes. -/
@@ -163,6 +193,12 @@ theorem scan_tree_sorted (sorted : Bool) (d : Defaults) (cfg : Cfg) (fnm : Fnm) 
       · cases h
         exact resolveHardLinks_allSorted _ _ _ _ ht hres
 
+/-- instance: the un-sorted iterator on `c, b, a` -/
+example : ∃ r, packDir false wd wcfg (fun _ _ _ => true) 1 [fc, fb, fa] = some r ∧ r.tree.AllSorted := by
+  obtain ⟨r, h⟩ := Option.isSome_iff_exists.1
+    (show (packDir false wd wcfg (fun _ _ _ => true) 1 [fc, fb, fa]).isSome = true by decide)
+  exact ⟨r, h, scan_tree_sorted false wd wcfg (fun _ _ _ => true) 1 [fc, fb, fa] r h⟩
+
 /-- … and a `glob` line keeps a sorted tree sorted. -/
 theorem glob_tree_sorted (sorted : Bool) (d : Defaults) (cfg : Cfg) (fnm : Fnm) (rootDev : Nat) (e : List HNode)
     (target : Path) (tree : TNode) (links : List Path) (ht : tree.AllSorted) (t' : TNode) (l' : List Path)
@@ -178,14 +214,16 @@ theorem glob_tree_sorted (sorted : Bool) (d : Defaults) (cfg : Cfg) (fnm : Fnm) 
       · cases h
       · exact scanInto_allSorted h1 h
 
+/-- instance: a `glob` line with target `x` on the fresh tree, entries enumerated as `c, b, a` -/
+example : ∃ t l, globInto true wd wcfg (fun _ _ _ => true) 1 [fc, fb, fa] [[0x78]] (initRoot wd) [] = some (t, l) ∧
+    t.AllSorted := by
+  obtain ⟨⟨t, l⟩, h⟩ := Option.isSome_iff_exists.1
+    (show (globInto true wd wcfg (fun _ _ _ => true) 1 [fc, fb, fa] [[0x78]] (initRoot wd) []).isSome = true by decide +kernel)
+  exact ⟨t, l, h, glob_tree_sorted true wd wcfg (fun _ _ _ => true) 1 [fc, fb, fa] [[0x78]] (initRoot wd) []
+    (initRoot_allSorted wd) t l h⟩
+
 /-! ### the hypotheses are satisfiable, the conclusion is not trivial -/
 
-private def st (mode ino : Nat) : Stat := { mode := mode, uid := 0, gid := 0, mtime := 0, dev := 1, ino := ino, rdev := 0 }
-private def fa : HNode := .mk [0x61] (st 0o100644 10) [] []
-private def fb : HNode := .mk [0x62] (st 0o100644 11) [] []
-private def fc : HNode := .mk [0x63] (st 0o100644 10) [] []           -- second name of `a`
-private def fe : HNode := .mk [0x65] (st 0o100644 13) [] []
-private def dd (c : List HNode) : HNode := .mk [0x64] (st 0o040755 12) [] c
 
 /-- `{a, b, c, d/{a, b}}` enumerated in two different orders (also inside `d`) -/
 example : FPerm [fa, fb, fc, dd [fa, fb]] [dd [fb, fa], fc, fb, fa] := by
@@ -203,11 +241,6 @@ example : WFList [fa, fb, fc, dd [fa, fb]] := by
   simp [WFList, WFNode, HNode.name, fa, fb, fc, dd]
 
 /-- `FlatLinks` holds of what the scan of `{a, b, c, e | a = c = e}` leaves behind: two pending links, both to `a` -/
-private def wcfg : Cfg :=
-  { flags := Consts.dirScanKeepUid ||| Consts.dirScanKeepGid ||| Consts.dirScanKeepMode, defUid := 0,
-    defGid := 0, defMode := 0, defMtime := 0, pfx := [], filePrefix := none, pattern := none }
-private def wd : Defaults := { uid := 0, gid := 0, mtime := 0, mode := 0o755 }
-private def fe' : HNode := .mk [0x65] (st 0o100644 10) [] []
 private def wscan : TNode × List Path :=
   (scanInto true wd wcfg (fun _ _ _ => true) 1 [fa, fb, fc, fe'] (initRoot wd) []).getD (initRoot wd, [])
 
@@ -246,7 +279,6 @@ example : compareNames (.mk [0x61, 0x80] default [] []) (.mk [0x61, 0x7f] defaul
     compareNames (.mk [0x61] default [] []) (.mk [0x61, 0x01] default [] []) < 0 := by decide
 
 /-- `read_names` on a stream with ".", ".." and three names in some order; its hypotheses are satisfiable -/
-private def nm (n : Name) : HNode := .mk n default [] []
 example : (readNames true [nm [0x63], nm [0x2e, 0x2e], nm [0x61, 0xff], nm [0x2e], nm [0x61]]).map HNode.name
     = [[0x2e], [0x2e, 0x2e], [0x61], [0x61, 0xff], [0x63]] := by decide
 example : ([nm [0x63], nm [0x2e, 0x2e], nm [0x61, 0xff], nm [0x2e], nm [0x61]].map HNode.name).Nodup := by decide
